@@ -191,6 +191,10 @@ func Diff(before, after *Obs) []string {
 		b, okb := before.Vals[k]
 		a, oka := after.Vals[k]
 		if okb != oka || a != b {
+			if strings.Contains(a, "\n") || strings.Contains(b, "\n") || strings.Count(a, ",") > 8 || strings.Count(b, ",") > 8 {
+				out = append(out, fmt.Sprintf("%s: only before=%q only after=%q", k, lineDiff(b, a), lineDiff(a, b)))
+				continue
+			}
 			out = append(out, fmt.Sprintf("%s: before=%q after=%q", k, trunc(b, okb), trunc(a, oka)))
 		}
 	}
@@ -212,6 +216,30 @@ func Diff(before, after *Obs) []string {
 		cfg := before.Cfg[parts[1]]
 		if !sameVec(cfg, b, a) {
 			out = append(out, fmt.Sprintf("%s: before=%v after=%v", k, b, a))
+		}
+	}
+	return out
+}
+
+// lineDiff lists the elements (lines, or comma separated items) of x that y lacks,
+// counting multiplicity.
+func lineDiff(x, y string) []string {
+	sep := "\n"
+	if !strings.Contains(x, "\n") && !strings.Contains(y, "\n") {
+		sep = ","
+	}
+	cnt := map[string]int{}
+	for _, l := range strings.Split(y, sep) {
+		cnt[l]++
+	}
+	var out []string
+	for _, l := range strings.Split(x, sep) {
+		if cnt[l] > 0 {
+			cnt[l]--
+			continue
+		}
+		if len(out) < 12 {
+			out = append(out, l)
 		}
 	}
 	return out
